@@ -1564,3 +1564,15 @@ M("v11-register-not-is-identity", "C01", "fire V11", "src/register_circuit.rs",
 M("v11-quiet-operands-commuted", "C01", "quiet", "src/circuit.rs",
   """                Gate::Xor(x, y) => output[*x].unwrap() ^ output[*y].unwrap(),""",
   """                Gate::Xor(x, y) => output[*y].unwrap() ^ output[*x].unwrap(),""", "behaviour-preserving: operands of xor commuted")
+
+M("s2-i32-default-skips-tuple-elements", "C05", "fire S2", "src/check.rs",
+  """                                ExprEnum::ArrayLiteral(exprs) | ExprEnum::TupleLiteral(exprs) => {
+                                    for expr in exprs {
+                                        constrain_to_i32(expr)?;
+                                    }
+                                }""",
+  """                                ExprEnum::ArrayLiteral(exprs) => {
+                                    for expr in exprs {
+                                        constrain_to_i32(expr)?;
+                                    }
+                                }""", "let mut t = (1, 2): the tuple type says i32 but the literals stay unconstrained")
